@@ -183,6 +183,20 @@ def evenOddLeft (poly : List (α × α)) (pt : α × α) : Bool :=
 def evenOddLe (poly : List (α × α)) (pt : α × α) : Bool :=
   parity ((edges poly).map fun e => crossRle pt.1 pt.2 e.1 e.2)
 
+/-- coordinates of `V` in the frame with origin `P` whose first axis is the direction `d` (not normalised:
+a rotation followed by a scaling by `|d|`) -/
+def rot (d P V : α × α) : α × α :=
+  (d.1 * (V.1 - P.1) + d.2 * (V.2 - P.2), d.1 * (V.2 - P.2) - d.2 * (V.1 - P.1))
+
+/-- the edge `A B` crosses the open ray `P + s d`, `s > 0`: its end points lie on different sides of the line
+through `P` along `d` (half-open rule: a vertex on the line counts with the left side) and the crossing point is
+ahead of `P` -/
+def crossDir (d P A B : α × α) : Bool := crossR 0 0 (rot d P A) (rot d P B)
+
+/-- even-odd rule along an arbitrary ray direction `d` -/
+def evenOddDir (d : α × α) (poly : List (α × α)) (P : α × α) : Bool :=
+  parity ((edges poly).map fun e => crossDir d P e.1 e.2)
+
 /-- twice the signed area of the triangle `p1 p2 q`: positive iff `q` is strictly left of `p1 → p2` -/
 def cross (p1 p2 q : α × α) : α := (p2.1 - p1.1) * (q.2 - p1.2) - (p2.2 - p1.2) * (q.1 - p1.1)
 
